@@ -8,7 +8,8 @@ An entry: dict(name, crate, prop, body, unwind, tiers, case, [stubs], [cap_s])
   case   human-readable description of what is concrete/symbolic (goes to evidence)
 """
 
-QUICK_W = [1, 2, 8, 33, 63, 64]
+QUICK_W = [1, 33, 64]          # binary operators (4 operand-width combos each), one harness per operator
+QUICK_UN_W = [1, 2, 33, 63, 64]  # unary operators (cheaper)
 ALL_W = list(range(1, 65))
 
 # (short name, veryl Op variant, oracle variant)
@@ -30,58 +31,401 @@ C17_UN = [
 ]
 
 RS_STUB = "std::hash::RandomState::new, crate::stub_random_state"
+# cut-off stubs: assert the Value::BigUint arms are never entered from 64-bit operands, then stop the path
+CUT_STUBS = [
+    "<veryl_analyzer::value::ValueBigUint as std::clone::Clone>::clone, crate::cut::clone",
+    "veryl_analyzer::value::MaskCache::get, crate::cut::mask_get",
+    "veryl_analyzer::value::ValueBigUint::is_xz, crate::cut::is_xz",
+    "veryl_analyzer::value::ValueBigUint::payload, crate::cut::payload",
+    "veryl_analyzer::value::ValueBigUint::mask_xz, crate::cut::mask_xz",
+    "veryl_analyzer::value::ValueBigUint::to_bigint, crate::cut::to_bigint",
+]
 
 
 def tiers_for(w):
     return {"quick", "thorough"} if w in QUICK_W else {"thorough"}
 
 
+FULL_MUL_W = list(range(1, 17))     # symbolic x symbolic multiplier: decided up to 16 bits
+FULL_DIV_W = list(range(1, 13))     # symbolic / symbolic divider: decided up to 12 bits
+
+
+def chunks(lst, n):
+    return [lst[i:i + n] for i in range(0, len(lst), n)]
+
+
 def c17():
+    """quick: one harness per operator covering the boundary widths; thorough: every width 1..64 in
+    groups of four consecutive widths per harness (per-harness tool overhead is ~25 s, symex per case ~1 s)."""
     out = []
-    for (n, op, ob) in C17_BIN + C17_HARD:
-        for w in ALL_W:
-            out.append(dict(
-                name=f"c17_{n}_w{w}", crate="analyzer-k", prop="C17", unwind=6,
-                body=f"c17::bin_table(s, Op::{op}, Bin::{ob}, &[{w}])",
-                tiers=tiers_for(w), stubs=[RS_STUB],
-                case=f"Op::{op}.eval_value_binary, context width {w}, operand widths "
-                     f"(w,w),(1,w),(w,1),(ceil(w/2),w); payloads, x/z masks, signed flags symbolic",
-                fn="veryl_analyzer::ir::Op::eval_value_binary"))
+    stubs = [RS_STUB] + CUT_STUBS
+
+    def wl(ws):
+        return "&[" + ", ".join(str(w) for w in ws) + "]"
+
+    def tag(ws):
+        return "w" + "_".join(str(w) for w in ws) if len(ws) <= 3 else f"w{ws[0]}to{ws[-1]}"
+
+    def add_bin(n, op, ob, ws, tiers):
+        out.append(dict(
+            name=f"c17_{n}_{tag(ws)}", crate="analyzer-k", prop="C17", unwind=max(6, len(ws) + 2),
+            body=f"c17::bin_table(s, Op::{op}, Bin::{ob}, {wl(ws)})", tiers=set(tiers), stubs=stubs,
+            case=f"Op::{op}.eval_value_binary, context widths {ws}, operand widths (w,w),(1,w),(w,1),(ceil(w/2),w); "
+                 f"payloads, x/z masks, signed flags symbolic",
+            fn="veryl_analyzer::ir::Op::eval_value_binary"))
+
+    def add_un(n, op, ou, ws, tiers):
+        out.append(dict(
+            name=f"c17_{n}_{tag(ws)}", crate="analyzer-k", prop="C17", unwind=max(6, len(ws) + 2),
+            body=f"c17::un_table(s, Op::{op}, Un::{ou}, {wl(ws)})", tiers=set(tiers), stubs=stubs,
+            case=f"Op::{op}.eval_value_unary, widths {ws} (operand widths w, 1, ceil(w/2)); payload, x/z mask, "
+                 f"signed flags symbolic",
+            fn="veryl_analyzer::ir::Op::eval_value_unary"))
+
+    for (n, op, ob) in C17_BIN:
+        add_bin(n, op, ob, QUICK_W, {"quick"})
+        for ws in chunks(ALL_W, 4):
+            add_bin(n, op, ob, ws, {"thorough"})
+    for (n, op, ob) in C17_HARD:
+        full = FULL_MUL_W if n == "mul" else FULL_DIV_W
+        add_bin(n, op, ob, [2, 8], {"quick"})
+        for ws in chunks(full, 2):
+            add_bin(n, op, ob, ws, {"thorough"})
     for (n, op, ou) in C17_UN:
-        for w in ALL_W:
+        add_un(n, op, ou, QUICK_UN_W, {"quick"})
+        for ws in chunks(ALL_W, 4):
+            add_un(n, op, ou, ws, {"thorough"})
+    for w in ALL_W:
+        if w < 17:
+            continue
+        for pos in sorted({0, w // 2, w - 4}):
+            for swap in (False, True):
+                q = (w == 64 and pos == 60 and not swap) or (w == 33 and pos == 0 and swap)
+                out.append(dict(
+                    name=f"c17_mulsparse_w{w}_p{pos}_{'yx' if swap else 'xy'}", crate="analyzer-k", prop="C17",
+                    unwind=6, body=f"c17::mul_sparse(s, {w}, {pos}, {'true' if swap else 'false'})",
+                    tiers={"quick", "thorough"} if q else {"thorough"}, stubs=stubs,
+                    case=f"Op::Mul at width {w}: one operand fully symbolic (4-state), the other a symbolic 4-bit "
+                         f"value at bit {pos} (reduced bound: symbolic x symbolic is SAT-hard above 16 bits)",
+                    fn="veryl_analyzer::ir::Op::eval_value_binary"))
+    for w in ALL_W:
+        if w < 13:
+            continue
+        for pos in sorted({0, w // 2, w - 4}):
+            for sg in (False, True):
+                q = w == 33 and ((pos == 29 and sg) or (pos == 0 and not sg))   # w64 costs 3-5 min of SAT each
+                out.append(dict(
+                    name=f"c17_divrem_w{w}_p{pos}_{'s' if sg else 'u'}", crate="analyzer-k", prop="C17",
+                    unwind=6, body=f"c17::divrem_sparse(s, {w}, {pos}, {'true' if sg else 'false'})",
+                    tiers={"quick", "thorough"} if q else {"thorough"}, stubs=stubs,
+                    case=f"Op::Div and Op::Rem at width {w} ({'signed' if sg else 'unsigned'}): dividend fully "
+                         f"symbolic (4-state), divisor a symbolic 4-bit value at bit {pos} (sign-filled above when "
+                         f"negative); checked by q*y+r==x, |r|<|y|, sign(r)=sign(x) (reduced bound)",
+                    fn="veryl_analyzer::ir::Op::eval_value_binary"))
+    for w in ALL_W:
+        for yw in (2, 8):   # a wide symbolic exponent drags BigUint::modpow into the symbolic execution
+            q = (w, yw) in ((8, 2), (64, 8), (1, 8))
             out.append(dict(
-                name=f"c17_{n}_w{w}", crate="analyzer-k", prop="C17", unwind=6,
-                body=f"c17::un_table(s, Op::{op}, Un::{ou}, &[{w}])",
-                tiers=tiers_for(w), stubs=[RS_STUB],
-                case=f"Op::{op}.eval_value_unary, width {w}; payload, x/z mask, signed flags symbolic",
-                fn="veryl_analyzer::ir::Op::eval_value_unary"))
+                name=f"c17_pownegexp_w{w}_e{yw}", crate="analyzer-k", prop="C17", unwind=6,
+                body=f"{{ let mut mc = veryl_analyzer::value::MaskCache::default(); "
+                     f"c17::pow_neg_case(s, &mut mc, {w}, {yw}); std::mem::forget(mc); }}",
+                tiers={"quick", "thorough"} if q else {"thorough"},
+                stubs=stubs + ["veryl_analyzer::ir::op::pow_mod_width, crate::cut::pow_mod_width"],
+                case=f"Op::Pow with a negative exponent (signed {yw}-bit, MSB set): base width {w}, base payload, "
+                     f"x/z mask, signedness and exponent symbolic (IEEE 1800 Table 11-4)",
+                fn="veryl_analyzer::ir::Op::eval_value_binary"))
+    return out
+
+
+FMT_STUB = "alloc::fmt::format, crate::stub_format"
+
+
+def c06():
+    mk = lambda n, body, case, fn: dict(  # noqa: E731
+        name=n, crate="analyzer-k", prop="C06", unwind=4, body=body, tiers={"quick", "thorough"},
+        stubs=[RS_STUB, FMT_STUB, "veryl_parser::resource_table::insert_str, crate::intern_stub::insert_str",
+               "veryl_parser::resource_table::insert_path, crate::intern_stub::insert_path"], case=case, fn=fn)
+    pcs = [f"veryl_parser::fragment_codec::{f}, crate::pc_cell::{f}"
+           for f in ("begin_encode", "end_encode", "begin_decode", "end_decode", "with_encode", "with_decode")]
+    hs = [
+        mk("c06_window_rebase", "c06::window_rebase(s)",
+           "IdWindow{start,end}, id, IdRebase{base}, second id, bogus local: all full-range usize/u64, symbolic",
+           ["veryl_parser::fragment_codec::IdWindow::encode", "veryl_parser::fragment_codec::IdWindow::count",
+            "veryl_parser::fragment_codec::IdRebase::decode"]),
+        mk("c06_parser_ids", "c06::parser_ids(s)",
+           "TokenId/TextId serde impls through begin_encode/begin_decode sessions; windows, ids, bases symbolic",
+           ["<veryl_parser::resource_table::TokenId as Serialize/Deserialize>",
+            "<veryl_parser::text_table::TextId as Serialize/Deserialize>",
+            "veryl_parser::fragment_codec::{begin_encode,end_encode,begin_decode,end_decode}"]),
+        mk("c06_analyzer_ids", "c06::analyzer_ids(s)",
+           "SymbolId/DefinitionId serde impls with sentinel-0 shift; windows, ids, bases symbolic",
+           ["<veryl_analyzer::symbol::SymbolId as Serialize/Deserialize>",
+            "<veryl_analyzer::definition_table::DefinitionId as Serialize/Deserialize>",
+            "veryl_analyzer::fragment_codec::{encode_sentinel,decode_sentinel,begin_*,end_*}"]),
+    ]
+    hs[1]["stubs"] = hs[1]["stubs"] + pcs
+    return hs
+
+
+def c16():
+    return [dict(
+        name="c16_relation", crate="analyzer-k", prop="C16", unwind=4, body="c16::relation(s)",
+        tiers={"quick", "thorough"}, stubs=[],
+        case="three arbitrary ClockDomain values (variant x full-range SymbolId), all symbolic",
+        fn=["veryl_analyzer::symbol::ClockDomain::compatible", "veryl_analyzer::symbol::ClockDomain::merge",
+            "veryl_analyzer::symbol::ClockDomain::domain_id"])]
+
+
+C36_QUICK_W = [1, 7, 31, 32, 33, 63, 64]
+
+
+def c36():
+    out = []
+    for n in (1, 2):
+        out.append(dict(
+            name=f"c36_decode_{n}w", crate="analyzer-k", prop="C36", unwind=4,
+            body=f"c36::decode_words(s, {n})", tiers={"quick", "thorough"}, stubs=[],
+            case=f"{n} svLogicVecVal word(s), aval/bval fully symbolic, symbolic bit index",
+            fn=["<veryl_analyzer::value::Value as From<&[SvLogicVecVal]>>::from",
+                "<Vec<SvLogicVecVal> as From<&Value>>::from"]))
+    for w in ALL_W:
+        t = {"quick", "thorough"} if w in C36_QUICK_W else {"thorough"}
+        out.append(dict(
+            name=f"c36_encode_w{w}", crate="analyzer-k", prop="C36", unwind=4,
+            body=f"c36::encode_width(s, {w})", tiers=t, stubs=[],
+            case=f"width {w}: payload, x/z mask, signed flag, bit index symbolic",
+            fn=["<Vec<SvLogicVecVal> as From<&Value>>::from",
+                "<veryl_analyzer::value::Value as From<&[SvLogicVecVal]>>::from"]))
+        out.append(dict(
+            name=f"c36_vcd_w{w}", crate="analyzer-k", prop="C36", unwind=4,
+            body=f"c36::dump_digits(s, {w})", tiers=t, stubs=[],
+            case=f"width {w}: payload, x/z mask, bit index symbolic",
+            fn=["veryl_analyzer::value::Value::to_vcd_value"]))
+    for w in [1, 2, 3, 4, 5, 7, 8, 9, 12, 16]:
+        t = {"quick", "thorough"} if w in (1, 3, 8) else {"thorough"}
+        out.append(dict(
+            name=f"c36_fst_w{w}", crate="analyzer-k", prop="C36", unwind=w + 2,
+            body=f"c36::fst_bits(s, {w})", tiers=t, stubs=[],
+            case=f"width {w}: payload, x/z mask, bit index symbolic (Vec<u8> of length w)",
+            fn=["veryl_analyzer::value::Value::to_fst_bits"]))
+        out.append(dict(
+            name=f"c36_vcditer_w{w}", crate="analyzer-k", prop="C36", unwind=w + 2,
+            body=f"c36::vcd_iter(s, {w})", tiers=t, stubs=[],
+            case=f"width {w}: payload, x/z mask symbolic; every yielded digit compared",
+            fn=["<veryl_analyzer::value::VcdValueIter as Iterator>::next"]))
+    return out
+
+
+C18_SIZES = {8: {"thorough"}, 16: {"quick", "thorough"}, 24: {"quick", "thorough"}, 32: {"thorough"}}
+WIDE_FNS = "veryl_simulator::wide_ops::"
+
+
+def c18():
+    out = []
+
+    def mk(name, body, tiers, case, fns, unwind=6, cap=None):
+        unwind = max(unwind, 10)   # the harness's own byte loops (8 per limb) need 9
+        d = dict(name=name, crate="analyzer-k", prop="C18", unwind=unwind, body=body, tiers=set(tiers),
+                 stubs=[], case=case, fn=[WIDE_FNS + f for f in fns])
+        if cap:
+            d["cap_s"] = cap
+        out.append(d)
+
+    for nb, tiers in C18_SIZES.items():
+        g = f"::<{nb}, {nb + 4}>"
+        n = nb // 8
+        for (nm, var, fn) in [("band", "And", "wide_band"), ("bor", "Or", "wide_bor"), ("bxor", "Xor", "wide_bxor"),
+                              ("bxornot", "XorNot", "wide_bxor_not"), ("bandnot", "AndNot", "wide_band_not"),
+                              ("add", "Add", "wide_add"), ("sub", "Sub", "wide_sub")]:
+            mk(f"c18_{nm}_nb{nb}", f"c18::binop{g}(s, c18::B2::{var})", tiers,
+               f"{fn}: {n} limb(s), both operands fully symbolic, misaligned exact-size buffers", [fn], unwind=n + 2)
+        for (nm, var, fn) in [("bnot", "Not", "wide_bnot"), ("negate", "Neg", "wide_negate"), ("copy", "Copy", "wide_copy")]:
+            mk(f"c18_{nm}_nb{nb}", f"c18::unop{g}(s, c18::U1::{var})", tiers,
+               f"{fn}: {n} limb(s), operand fully symbolic", [fn], unwind=n + 2)
+        mk(f"c18_compare_nb{nb}", f"c18::compare{g}(s)", tiers,
+           f"wide_eq/ne/ucmp/is_nonzero/popcnt_parity: {n} limb(s), operands fully symbolic",
+           ["wide_eq", "wide_ne", "wide_ucmp", "wide_is_nonzero", "wide_popcnt_parity"], unwind=n + 2)
+        mk(f"c18_shifts_nb{nb}", f"c18::shifts{g}(s)", tiers,
+           f"wide_shl/wide_lshr: {n} limb(s), operand and the full 64-bit amount symbolic",
+           ["wide_shl", "wide_lshr"], unwind=n + 2)
+        # width-carrying helpers: every width whose top bit lies in the top limb
+        lo = 64 * (n - 1) + 1
+        hi = 64 * n
+        qw = {lo, lo + 1, hi - 1, hi}
+        for w in range(lo, hi + 1):
+            t = set(tiers) if w in qw else {"thorough"}
+            mk(f"c18_widthed_nb{nb}_w{w}", f"c18::widthed{g}(s, {w})", t,
+               f"wide_scmp/is_all_ones/apply_mask/fill_ones at width {w} in {n} limb(s); operands symbolic "
+               f"(zero-padded above the width, the documented precondition)",
+               ["wide_scmp", "wide_is_all_ones", "wide_apply_mask", "wide_fill_ones", "pack_nb_width"], unwind=n + 2)
+            ta = t if (nb == 16 and w in (lo, lo + 1)) else {"thorough"}   # the bit-fill loop is expensive
+            mk(f"c18_ashr_nb{nb}_w{w}", f"c18::ashr{g}(s, {w})", ta,
+               f"wide_ashr at width {w} in {n} limb(s); operand and full 64-bit amount symbolic",
+               ["wide_ashr", "wide_lshr"], unwind=w + 2)
+    # resize: narrower source in its own, shorter allocation
+    for (snb, dnb, ws, tiers) in [(8, 16, [1, 33, 63, 64], {"thorough"}), (8, 24, [1, 64], {"quick", "thorough"}),
+                                  (16, 24, [65, 100, 127, 128], {"quick", "thorough"}),
+                                  (24, 16, [129, 192], {"thorough"}), (16, 32, [65, 128], {"thorough"}),
+                                  (24, 32, [129, 191, 192], {"thorough"}), (24, 24, [0, 130, 192], {"quick", "thorough"})]:
+        for w in ws:
+            mk(f"c18_resize_{snb}to{dnb}_w{w}",
+               f"c18::resize::<{snb}, {snb + 4}, {dnb}, {dnb + 4}>(s, {w})", tiers,
+               f"wide_resize: {w}-bit value in an exact {snb}-byte allocation -> {dnb} bytes; value, signed flag, "
+               f"previous destination contents symbolic", ["wide_resize", "sext_word"], unwind=6)
+    for (nb, pairs, tiers) in [(24, [(129, 192), (192, 129), (130, 1), (64, 191)], {"quick", "thorough"}),
+                               (16, [(65, 128), (128, 1), (100, 101)], {"thorough"}),
+                               (32, [(193, 256), (256, 200)], {"thorough"})]:
+        for (aw, bw) in pairs:
+            mk(f"c18_scmpasym_nb{nb}_{aw}_{bw}", f"c18::scmp_asym::<{nb}, {nb + 4}>(s, {aw}, {bw})", tiers,
+               f"wide_scmp_asym: widths {aw} vs {bw} in {nb}-byte buffers, operands symbolic",
+               ["wide_scmp_asym", "sext_word"], unwind=6)
+    for (anb, bnb, aw, bw, tiers) in [(24, 8, 192, 64, {"quick", "thorough"}), (8, 24, 33, 129, {"quick", "thorough"}),
+                                      (16, 24, 128, 191, {"thorough"}), (32, 16, 255, 65, {"thorough"})]:
+        mk(f"c18_scmpasym_short_{anb}_{bnb}_{aw}_{bw}",
+           f"c18::scmp_asym_short::<{anb}, {anb + 4}, {bnb}, {bnb + 4}>(s, {aw}, {bw})", tiers,
+           f"wide_scmp_asym: {aw}-bit operand in {anb} bytes vs {bw}-bit operand in its own {bnb}-byte allocation",
+           ["wide_scmp_asym", "sext_word"], unwind=6)
+    mk("c18_mul_nb8", "c18::mul_1limb(s)", {"quick", "thorough"},
+       "wide_mul: 1 limb, both operands fully symbolic (64x64 -> low 64)", ["wide_mul"], unwind=3)
+    for nb in (16, 24, 32):
+        n = nb // 8
+        poss = [0, 61, 64, 64 * n - 3] if nb != 32 else [0, 127, 253]
+        for pos in poss:
+            for swap in (False, True):
+                t = {"quick", "thorough"} if (nb == 24 and pos in (61, 64 * n - 3)) or (nb == 16 and pos == 61 and not swap) else {"thorough"}
+                mk(f"c18_mul_nb{nb}_p{pos}_{'ba' if swap else 'ab'}",
+                   f"c18::mul_sparse::<{nb}, {nb + 4}>(s, {pos}, {'true' if swap else 'false'})", t,
+                   f"wide_mul: {n} limbs, one operand fully symbolic, the other a symbolic 3-bit value at bit {pos} "
+                   f"(operand order {'b*a' if swap else 'a*b'})", ["wide_mul"], unwind=n + 2)
+    mk("c18_pack", "c18::pack_roundtrip(s)", {"quick", "thorough"},
+       "pack_nb_width for all nb,width < 65536", ["pack_nb_width"], unwind=2)
+    return out
+
+
+def c32():
+    out = []
+    global C32_STUBS
+    C32_STUBS = [RS_STUB, "veryl_parser::resource_table::get_str_value, crate::intern_stub::get_str_value",
+                 "crate::simulator_spliced::random_table::with_rng, crate::stub_with_rng"]
+    fns = ["veryl_simulator::random_table::get_range", "veryl_simulator::random_table::mask",
+           "veryl_simulator::random_table::sign_extend", "veryl_simulator::random_table::with_rng",
+           "veryl_simulator::random_table::reset"]
+    for w in ALL_W:
+        t = {"quick", "thorough"} if w in (1, 2, 8, 31, 32, 33, 63, 64) else {"thorough"}
+        out.append(dict(
+            name=f"c32_range_w{w}", crate="analyzer-k", prop="C32", unwind=20, body=f"c32::range_draw(s, {w})",
+            tiers=t, stubs=C32_STUBS,
+            case=f"get_range at width {w}: min, max (full u64), signed flag, base seed, handle id and the sampler's "
+                 f"return value symbolic", fn=fns))
+    for w in (1, 8, 63, 64):
+        out.append(dict(
+            name=f"c32_full_w{w}", crate="analyzer-k", prop="C32", unwind=20, body=f"c32::full_draw(s, {w})",
+            tiers={"quick", "thorough"}, stubs=C32_STUBS,
+            case=f"get at width {w}: signed flag, seed, handle, sample symbolic",
+            fn=["veryl_simulator::random_table::get", "veryl_simulator::random_table::mask"]))
+    out.append(dict(
+        name="c32_seed_derivation", crate="analyzer-k", prop="C32", unwind=12,
+        body="c32::seed_derivation(s, false)", tiers={"quick", "thorough"}, stubs=C32_STUBS,
+        case="derive_seed(base, handle) for four fixed base seeds (0, 1, 0x0123456789abcdef, all-ones) and every handle "
+             "name of 0..2 ASCII bytes (or no name): equals an independent FNV-1a over base bytes ++ name",
+        fn=["veryl_simulator::random_table::derive_seed"]))
+    return out
+
+
+NPN = "veryl_synthesizer::aig::npn4::"
+
+
+def c21():
+    out = []
+    for pi in range(24):
+        q = {"quick", "thorough"} if pi in (0, 9, 23) else {"thorough"}
+        out.append(dict(
+            name=f"c21_ttperm_p{pi}", crate="analyzer-k", prop="C21", unwind=18, body=f"c21::tt_perm(s, {pi})",
+            tiers=q, stubs=[],
+            case=f"perm_tt for permutation #{pi}: two 16-bit truth tables and the minterm symbolic (substitution + "
+                 f"homomorphism laws)", fn=[NPN + "perm_tt"]))
+        out.append(dict(
+            name=f"c21_ttops_p{pi}", crate="analyzer-k", prop="C21", unwind=18, body=f"c21::tt_ops(s, {pi})",
+            tiers=q, stubs=[],
+            case=f"flip_inputs/NpnTransform::apply for permutation #{pi}: truth table, minterm, in_neg, out_neg symbolic",
+            fn=[NPN + "flip_inputs", NPN + "NpnTransform::apply", NPN + "perm_tt"]))
+    for n in range(4):
+        out.append(dict(
+            name=f"c21_eval_a{n}", crate="analyzer-k", prop="C21", unwind=18, body=f"c21::eval_sound(s, {n})",
+            tiers={"quick", "thorough"}, stubs=[],
+            case=f"AigPattern::eval/tt for every pattern with {n} AND node(s): fan-in edges, output edge, minterm symbolic",
+            fn=[NPN + "AigPattern::eval", NPN + "AigPattern::tt"]))
+        for pi in range(24):
+            quick = (n <= 1 and pi in (0, 9, 23)) or (n == 2 and pi in (9, 23)) or (n == 3 and pi == 14)
+            out.append(dict(
+                name=f"c21_transform_a{n}_p{pi}", crate="analyzer-k", prop="C21", unwind=18,
+                body=f"c21::transform_sound(s, {n}, {pi})",
+                tiers={"quick", "thorough"} if quick else {"thorough"}, stubs=[],
+                case=f"transform_pattern soundness: every pattern with {n} AND node(s) (edges and output symbolic), "
+                     f"permutation #{pi}, in_neg and out_neg symbolic",
+                fn=[NPN + "transform_pattern", NPN + "NpnTransform::apply", NPN + "AigPattern::tt"]))
     return out
 
 
 def all_harnesses():
-    return c17()
+    return c17() + c06() + c16() + c36() + c18() + c32() + c21()
+
+
+def splice_random_table(crate_dir):
+    """Verbatim copy of the real random_table.rs + one line mounting the harness as a child module."""
+    import os
+    src = open("/repo/crates/simulator/src/random_table.rs").read()
+    new = src + "\n// ---- appended by /verif/run/harness_defs.py (nothing above this line is edited) ----\n" \
+              + "#[path = \"../c32.rs\"]\npub mod verif;\n"
+    d = os.path.join(crate_dir, "src", "spliced")
+    os.makedirs(d, exist_ok=True)
+    p = os.path.join(d, "random_table.rs")
+    if not os.path.exists(p) or open(p).read() != new:
+        open(p, "w").write(new)
 
 
 KANI_PROPS = {"C17", "C18", "C36", "C06", "C16", "C32", "C21"}
 
 CRATE_INFO = {
     "analyzer-k": dict(
-        repo_lock=True, refresh_lock=True,
-        sources=["crates/analyzer/src/ir/op.rs", "crates/analyzer/src/value.rs",
+        repo_lock=True, refresh_lock=True, prepare=splice_random_table,
+        sources=["crates/synthesizer/src/aig/npn4.rs", "crates/simulator/src/wide_ops.rs", "crates/simulator/src/random_table.rs",
+                 "crates/analyzer/src/ir/op.rs", "crates/analyzer/src/value.rs",
                  "crates/analyzer/src/symbol.rs", "crates/analyzer/src/fragment_codec.rs",
                  "crates/parser/src/fragment_codec.rs"]),
 }
 
 BOUNDS = {
     "C17": dict(
-        quick="operators: every binary/unary arm of Op::eval_value_*; context widths W in "
-              f"{QUICK_W}; operand widths (W,W),(1,W),(W,1),(ceil(W/2),W); all payloads, all x/z masks, "
-              "all signedness flags allowed by the caller contract",
-        thorough="same, context widths W = every value 1..=64",
+        quick="operators: every binary/unary arm of Op::eval_value_* (U64 representation); context widths W in "
+              f"{QUICK_W} (binary) / {QUICK_UN_W} (unary); operand widths (W,W),(1,W),(W,1),(ceil(W/2),W); all "
+              "payloads, all x/z masks, all signedness flags allowed by the caller contract. Mul: both operands "
+              "symbolic for W in {2,8}, one operand reduced to a symbolic 4-bit value at a fixed position for "
+              "W in {33,64}. Div/Rem: both symbolic for W in {2,8}; divisor reduced to a 4-bit window for W in "
+              "33 and checked by q*y+r==x. Pow: negative exponents only (Table 11-4), base widths 1,8,64, exponent widths 2,8",
+        thorough="same with every context width 1..=64; Mul fully symbolic for W<=16, Div/Rem for W<=12, the "
+                 "reduced forms above for every larger width at three window positions",
         outside="Value::BigUint representation (widths > 64) and the small/big agreement clause; "
                 "operand wider than the context width; `**` beyond negative exponents and exponents 0..2; "
                 "eval_type_* width inference; float operators"),
 }
+
+BOUNDS["C06"] = dict(
+    all="IdWindow/IdRebase arithmetic and the four ID types' serde impls for every usize window, id and base "
+        "(no size bound: straight-line integer code, full 64-bit ranges)",
+    outside="that every ID-bearing field of every symbol kind is routed through this codec; equality of analyzer "
+            "state after restore (symbol_table::export_fragment/restore_fragment, scopes, type DAG); StrId/PathId "
+            "dictionary interning (HashMap<String>)")
+BOUNDS["C16"] = dict(
+    all="every triple of ClockDomain values: 4 variants x full-range SymbolId each",
+    outside="domain inference and propagation through expressions, instances and interface members; the "
+            "unsafe(cdc) lookup; that check_clock_domain is called at every assignment/connection")
+BOUNDS["C36"] = dict(
+    quick=f"decode: 1 and 2 words, all aval/bval; encode and to_vcd_value: widths {C36_QUICK_W}, all 4-state values; "
+          "to_fst_bits and VcdValueIter: widths 1,3,8",
+    thorough="decode: 1 and 2 words; encode and to_vcd_value: every width 1..=64; to_fst_bits/VcdValueIter: widths "
+             "1..5,7,8,9,12,16",
+    outside="widths > 64 (BigUint limbs); the waveform writers themselves (Simulator::dump_variables, wave_dumper.rs: file I/O)")
 
 ASSUMPTIONS = {
     "C17": [
@@ -93,6 +437,59 @@ ASSUMPTIONS = {
     ],
 }
 
+
+ASSUMPTIONS["C06"] = [
+    "start <= end for every window; base + count does not overflow (the caller reserves that range)",
+    "alloc::fmt::format stubbed to return an empty String (error text is not the subject)",
+    "std::hash::RandomState::new stubbed with fixed keys (parser EncodeSession holds empty HashMaps)",
+    "a 60-line u64-only serde Serializer/Deserializer stands in for postcard (kani/common/miniserde.rs)",
+    "parser-side session storage (thread-locals with destructors, which Kani 0.68 cannot compile) replaced by a "
+    "static cell with the same begin/end/with logic (kani/analyzer-k/src/lib.rs pc_cell); interning stubs are "
+    "never reached (asserted)",
+]
+ASSUMPTIONS["C16"] = ["none beyond the type's own definition"]
+ASSUMPTIONS["C36"] = [
+    "values satisfy payload,mask_xz < 2^width",
+    "Annex H.10.1.2 table as transcribed in kani/analyzer-k/src/c36.rs",
+]
+
+ASSUMPTIONS["C32"] = [
+    "rand::RngExt::random_range / rand_pcg::Pcg64 are contract-only stand-ins (kani/shims): random_range(lo..=hi) "
+    "returns an arbitrary value in [lo,hi] and panics on an empty range",
+    "random_table::with_rng (generator lookup in a thread-local HashMap) replaced by a fresh stand-in generator: "
+    "hashbrown under CBMC costs minutes per harness; the per-handle generator table (get_seed_handle / seed_handle "
+    "/ reset) is therefore outside the claim",
+    "veryl_parser::resource_table::get_str_value stubbed: each of the two handles has an arbitrary fixed name of 0..2 ASCII bytes, or none",
+    "std thread_local! shadowed under Kani by a lazily initialised static cell with the same .with() interface "
+    "(std's registers a destructor, which Kani 0.68 cannot compile); the spliced file is byte-identical to /repo's "
+    "plus one appended mount line",
+    "std::hash::RandomState::new stubbed with fixed keys",
+]
+ASSUMPTIONS["C18"] = [
+    "documented precondition of the width-carrying helpers: operands are stored zero-padded above `width`",
+    "nb is a multiple of 8 matching the buffer sizes (the module's stated calling convention)",
+    "reference arithmetic = (u128,u128) pairs in kani/analyzer-k/src/c18.rs",
+]
+ASSUMPTIONS["C21"] = ["pattern fan-ins respect topological order (node index < 4 + position), as every pattern built "
+                      "by the library enumerator does"]
+BOUNDS["C18"] = dict(
+    quick="2 and 3 limbs (16, 24 bytes): every helper, all limb contents, full 64-bit shift amounts; width-carrying "
+          "helpers at the 4 boundary widths of the top limb; resize/scmp_asym with shorter source allocations; "
+          "wide_mul: 1 limb full, 2-3 limbs with one operand a 3-bit window",
+    thorough="1..4 limbs; every width whose top bit lies in the top limb (64(n-1) < w <= 64n)",
+    outside="Cranelift / AOT-C lowering of every operator; interpreter evaluation above 64 bits (BigUint); "
+            "multi-operator expressions; wide_mul with both operands symbolic above one limb; more than 4 limbs")
+BOUNDS["C32"] = dict(
+    quick="get_range at widths 1,2,8,31,32,33,63,64 with all min/max/signedness/sample values; get at 1,8,63,64; "
+          "derive_seed against FNV-1a for four fixed base seeds and all names of 0..2 bytes (a symbolic base seed means ten chained 64-bit constant multiplications, which cadical does not finish in 10 min)",
+    thorough="get_range at every width 1..=64",
+    outside="worker-pool dispatch, captured output and verdict stability (threads/processes); the distribution of "
+            "the real PCG generator; the per-handle generator table (get_seed_handle/seed_handle/reset); component instance_seed")
+BOUNDS["C21"] = dict(
+    quick="perm_tt/flip_inputs/apply for 3 permutations; transform_pattern soundness for 0,1 ANDs (3 perms), 2 ANDs "
+          "(2 perms), 3 ANDs (1 perm); AigPattern::eval for 0..3 ANDs; all truth tables, edges, in_neg, out_neg",
+    thorough="all 24 permutations for every AND count 0..3",
+    outside="npn_canonical, the lazily built library (build_library), rewrite, techmap, AIG<->cell conversion")
 
 PRELUDE = {
     "analyzer-k": """use oracle::{Bin, Un};
@@ -125,6 +522,8 @@ def gen_rs(crate):
 if __name__ == "__main__":
     import sys, os
     for crate in sorted({h["crate"] for h in all_harnesses()}):
+        if CRATE_INFO[crate].get("prepare"):
+            CRATE_INFO[crate]["prepare"](f"/verif/kani/{crate}")
         p = f"/verif/kani/{crate}/src/gen.rs"
         new = gen_rs(crate)
         if not os.path.exists(p) or open(p).read() != new:
